@@ -95,6 +95,8 @@ def build_class(s, kinds):
         base = {"dense": flatland.Dict, "sparse": flatland.SparseDict,
                 "sparseReq": flatland.SparseDict.using(minimum_fields="required")}[s["mode"]]
         cls = base.of(*[build_class(f, kinds) for f in s["fields"]])
+        if "policy" in s:
+            cls = cls.using(policy={"strict": "strict", "subset": "subset", "duck": "duck", "off": None}[s["policy"]])
     elif t == "list":
         cls = flatland.List.of(build_class(s["member"], kinds)).using(
             prune_empty=s["prune"], maximum_set_flat_members=s["max"])
